@@ -78,7 +78,10 @@ def project_src(cmds):
                         "pub fn helper_%d(app: AppHandle, on_helper_event: Channel<Msg>, helper_flag: bool) {\n    todo!()\n}\n\n",
                         "#[clap::command]\n#[allow(dead_code)]\nfn cli_entry_%d(on_cli: Channel<u8>) {}\n\n"][(k_ // 3) % 3] % k_)
         src.append("%s\npub async fn %s%s%s(%s) -> Result<(), String> {\n    todo!()\n}\n\n" % (attr, "r#" if c.get("raw") else "", c["name"], generic, ps))
-    return [("lib.rs", "".join(src))]
+    # plain functions that share a command's name, in files that sort before and after the command's file (a module-level helper the
+    # command delegates to): they are not the command, and what they take is not what the command takes
+    twins = lambda k0: "".join("pub fn %s(url: &str, retries: u8) -> u32 {\n    0\n}\n\n" % c["name"] for k, c in enumerate(cmds) if k % 2 == k0 and not c.get("raw"))
+    return [("lib.rs", "".join(src)), ("aaa_helpers.rs", "// helpers\n" + twins(0)), ("zzz/more_helpers.rs", "// more helpers\n" + twins(1))]
 
 
 def tsparse_unquote(lit):
